@@ -2,13 +2,14 @@
 import itertools
 import os
 
-from mc import engine, ref, sub
+from mc import engine, ref, sub, ops
 from mc.engine import Viol
 
 PROP = "C04"
 DIR = None
 A0, A1 = b"original content of a", b"ALTERED content of a!"
 MODES = ("folder", "sf", "nested")
+TWINS = {"c": DIR, "c/z.txt": b"zc", "d": DIR, "d/a.txt": None, "e": DIR, "e/z.txt": b"ze", "b.txt": b"bystander"}
 
 
 def subsets(fmts):
@@ -19,7 +20,7 @@ def subsets(fmts):
 
 
 def tracked(mode):
-    return "d/a.txt" if mode == "nested" else "a.txt"
+    return "d/a.txt" if mode in ("nested", "twins") else "a.txt"
 
 
 def init_tree(mode):
@@ -41,11 +42,48 @@ def create_args(root, mode, fmts, first=False):
 
 # ------------------------------------------------------------------ oracle
 
+def check_record(V, hs, per, first_gen, content, number):
+    """the C04 relation for one file record: hs = its hash entries in the new generation, per = earliest recorded digest per
+    format before the run, first_gen = first generation that records the path (None: new in this run)"""
+    acts = {h["format"]: h["action"] for h in hs}
+    altered = any(ref.digest(f, content) != d for f, (d, _) in per.items())
+    for h in hs:
+        want = ref.digest(h["format"], content)
+        if h["digest"] != want:
+            V("digest-wrong", f"{h['format']} recorded {h['digest']} but the file bytes hash to {want}")
+    if first_gen is None:
+        if not any(a == "original" for a in acts.values()) or any(a == "failed" for a in acts.values()):
+            V("first-gen-actions", f"first generation records actions {acts}")
+    else:
+        if any(a == "original" for a in acts.values()):
+            V("original-in-later-gen", f"'original' again in generation {number}: {acts} (first recorded in {first_gen})")
+        any_failed = any(a == "failed" for a in acts.values())
+        old_verified = any(a == "verified" for f, a in acts.items() if f in per)
+        for h in hs:
+            f = h["format"]
+            if f in per:
+                want = "verified" if h["digest"] == per[f][0] else "failed"
+                if h["action"] != want:
+                    V("action-mismatch", f"{f}: action {h['action']} but digest {'==' if want == 'verified' else '!='} "
+                      f"earliest recorded ({per[f][0]} from generation {per[f][1]})")
+            else:
+                if any_failed:
+                    V("new-format-on-failed", f"new format {f} recorded although a check failed: {acts}")
+                elif h["action"] != "verified":
+                    V("new-format-not-verified", f"new format {f} has action {h['action']}")
+                elif not old_verified:
+                    V("new-format-unvouched", f"new format {f} recorded without a verified entry of a recorded format: {acts}")
+        if altered and not any_failed:
+            V("failed-not-recorded", f"content differs from the first digests but no 'failed' entry: {acts}")
+        if not altered and any_failed:
+            V("failed-on-unaltered", f"'failed' entry although the bytes equal the first recorded content: {acts}")
+
+
 def judge(pre, post, mode, fmts, res, edits_state):
     """relation R(pre, create fmts, post, result) from the property statement.  pre/post: trees."""
     v = []
     tp = tracked(mode)
-    hroot = "d" if mode == "nested" else ""
+    hroot = "d" if mode in ("nested", "twins") else ""
     rel = ref.rel_to(hroot, tp)
     content = pre[tp]
     pre_g = [(g["number"], ref.read_manifest(g["bytes"])) for g in ref.generations(pre, hroot)]
@@ -75,43 +113,25 @@ def judge(pre, post, mode, fmts, res, edits_state):
     if len(recs) != 1:
         V("no-record", f"{len(recs)} records for {rel} in {new[0]['name']}")
         return v
-    hs = recs[0]["hashes"]
-    acts = {h["format"]: h["action"] for h in hs}
-    for h in hs:
-        want = ref.digest(h["format"], content)
-        if h["digest"] != want:
-            V("digest-wrong", f"{h['format']} recorded {h['digest']} but the file bytes hash to {want}")
-    if first_gen is None:
-        if not any(a == "original" for a in acts.values()) or any(a == "failed" for a in acts.values()):
-            V("first-gen-actions", f"first generation records actions {acts}")
-    else:
-        if any(a == "original" for a in acts.values()):
-            V("original-in-later-gen", f"'original' again in generation {new[0]['number']}: {acts} (first recorded in {first_gen})")
-        any_failed = any(a == "failed" for a in acts.values())
-        old_verified = any(a == "verified" for f, a in acts.items() if f in per)
-        for h in hs:
-            f = h["format"]
-            if f in per:
-                want = "verified" if h["digest"] == per[f][0] else "failed"
-                if h["action"] != want:
-                    V("action-mismatch", f"{f}: action {h['action']} but digest {'==' if want == 'verified' else '!='} "
-                      f"earliest recorded ({per[f][0]} from generation {per[f][1]})")
-            else:
-                if any_failed:
-                    V("new-format-on-failed", f"new format {f} recorded although a check failed: {acts}")
-                elif h["action"] != "verified":
-                    V("new-format-not-verified", f"new format {f} has action {h['action']}")
-                elif not old_verified:
-                    V("new-format-unvouched", f"new format {f} recorded without a verified entry of a recorded format: {acts}")
-        if altered and not any_failed:
-            V("failed-not-recorded", f"content differs from the first digests but no 'failed' entry: {acts}")
-        if not altered and any_failed:
-            V("failed-on-unaltered", f"'failed' entry although the bytes equal the first recorded content: {acts}")
+    check_record(V, recs[0]["hashes"], per, first_gen, content, new[0]["number"])
+    # the same relation for every other file recorded by this run, in every history it wrote to
+    for hr in ref.history_roots(post):
+        pg = [(g["number"], ref.read_manifest(g["bytes"])) for g in ref.generations(pre, hr)]
+        for g in [g for g in ref.generations(post, hr) if g["path"] not in pre]:
+            for rec in ref.read_manifest(g["bytes"])["records"]:
+                full = (hr + "/" + rec["path"]) if hr else rec["path"]
+                if rec["kind"] != "file" or full == tp or pre.get(full) is None:
+                    continue
+                per2, first2 = ref.earliest(pg, rec["path"])
+
+                def V2(kind, detail, **extra):
+                    V(kind, f"[{full} in history '{hr or '.'}'] " + detail, other=True, **extra)
+                check_record(V2, rec["hashes"], per2, first2, pre[full], g["number"])
     return v
 
 
 def outcome_of(post, mode, res):
-    hroot = "d" if mode == "nested" else ""
+    hroot = "d" if mode in ("nested", "twins") else ""
     gens = ref.generations(post, hroot)
     if not gens:
         return (res.exit, None)
@@ -161,6 +181,11 @@ def expand(ctx, item):
         t2[tp] = A1 if tree[tp] == A0 else A0
         out.append((["set", "A1" if t2[tp] == A1 else "A0"], t2, dict(meta, edits=meta["edits"] + 1, just_edited=True),
                     [], "edit"))
+    if mode == "twins" and 1 <= meta["gens"] < max_gen:
+        # a file with the same history-relative path appears in a sibling history (visited before / after the tracked one)
+        for tw in ("c/a.txt", "e/a.txt"):
+            if tw not in tree and meta.get("twins", 0) < 1:
+                out.append((["add", tw], dict(tree, **{tw: b"twin of another history"}), dict(meta, twins=meta.get("twins", 0) + 1), [], "edit"))
     if meta.get("just_edited"):
         for tr in out:
             if tr[2] is not None and tr[0][0] == "create":
@@ -185,10 +210,20 @@ def main(tier, seed):
         plan = [(m, ["c4", "md5", "xxh64"], 4, 2) for m in MODES] + [(m, ["md5", "xxh64"], 6, 3) for m in MODES] + \
                [("folder", ref.FORMATS_CLI, 3, 0), ("nested", ["c4", "md5", "sha1", "xxh64"], 3, 2),
                 ("sf", ["c4", "md5", "sha1", "xxh64"], 3, 2)]
+    plan.append(("twins", ["md5", "xxh64"], 3 if tier == "quick" else 4, 1))
     for mode, fmts, max_gen, max_edits in plan:
         fsets = subsets(fmts)
         meta = {"mode": mode, "fsets": fsets, "max_gen": max_gen, "max_edits": max_edits, "gens": 0, "edits": 0}
-        r = engine.bfs(eng, expand, [(init_tree(mode), meta, f"init:{mode}")], max_depth=max_gen + max_edits + 1,
+        init = init_tree(mode)
+        if mode == "twins":   # three sibling histories; the tracked file lives in the middle one
+            init = engine.scenarios(eng, lambda: {"t": ops.build(eng.local_ctx(), dict(TWINS, **{"d/a.txt": A0}),
+                                                                 [ops.create(x, ["md5"]) for x in ("c", "d", "e")], expect=[0, 0, 0])})["t"]
+            if init is None:
+                continue
+            meta["gens"] = 1
+            max_gen += 1
+            meta["max_gen"] = max_gen
+        r = engine.bfs(eng, expand, [(init, meta, f"init:{mode}")], max_depth=max_gen + max_edits + 2,
                        label=lambda op: " ".join(op))
         runs.append({"mode": mode, "formats": fmts, "format_sets": len(fsets), "max_generations": max_gen,
                      "max_content_edits": max_edits, **r})
@@ -200,7 +235,9 @@ def main(tier, seed):
                    "or alter/restore of the tracked file; every create judged by the C04 relation over the on-disk "
                    "history before/after (independent XML reader + reference digests)",
            "exhaustive": True, "runs": runs}
-    eng.assumptions += ["alphabet: one tracked file (root / -sf / nested child history) + one bystander",
+    eng.assumptions += ["alphabet: one tracked file (root / -sf / nested child history) + one bystander; 'twins': three sibling histories, a file with "
+                        "the tracked file's history-relative path appears in the sibling visited before / after it; the relation is checked "
+                        "for every file record of every manifest a run writes",
                         "content alphabet {original, altered}; at most max_content_edits alter/restore steps",
                         "in-process CliRunner execution; every alarm re-run in fresh subprocesses before it is reported"]
     return eng.finish(cov, eval_case)
